@@ -32,6 +32,8 @@ var c09Standalone = []string{
 	// rejected by a method of the ACTIVE visitor (AtomVisitor.EnterOC_ShortestPathPattern), not by BaseVisitor
 	"MATCH (a), (b) RETURN shortestPath((a)-[*]->(b))", "MATCH (a), (b) WHERE length(allShortestPaths((a)-[*..3]->(b))) > 1 RETURN a",
 	"MATCH p = shortestPath((a)-[*]->(b)) RETURN p",
+	// chained property lookups in SET / REMOVE (reported by PropertyExpressionVisitor from the second lookup on once hooks/C07-fix5.patch is in)
+	"MATCH (n) SET n.a.b = 1", "MATCH (n) REMOVE n.a.b", "MATCH (n) SET n.a.b.c = 1, n.x.y = 2, n.z = 3", "MATCH (n) WITH n SET n.a.b = n.c.d RETURN n.e.f",
 	"CALL db.labels()", "CALL db.labels", "CALL db.labels() YIELD label RETURN label", "CALL dbms.procedures() YIELD name, signature",
 	"CREATE INDEX ON :Person(name)", "DROP INDEX ON :Person(name)", "CREATE CONSTRAINT ON (p:Person) ASSERT p.name IS UNIQUE",
 	"DROP CONSTRAINT ON (p:Person) ASSERT p.name IS UNIQUE", "CREATE CONSTRAINT ON (p:Person) ASSERT exists(p.name)",
